@@ -1964,6 +1964,25 @@ func ruleReadyContinuationLive(c *Ctx) {
 				n++
 				c.inst(1)
 				ok := p.guardedByOpt(c2, alive, false) != nil
+				if !ok && !(f != nil && (f.Name() == "Send" || f.Name() == "GetRPCResources")) {
+					// the body of the continuation moved into a named method (new since the reference tree) that makes the
+					// test itself: every send inside it lies behind the test
+					if sf := c2.Common().StaticCallee(); sf != nil {
+						all, any := true, false
+						for _, h := range p.withNewHelpers(sf) {
+							for _, c3 := range callsIn(h) {
+								cf := calleeFunc(c3.Common())
+								if cf != nil && (cf.Name() == "Send" || cf.Name() == "GetRPCResources") {
+									any = true
+									if p.guardedBy(c3, alive) == nil {
+										all = false
+									}
+								}
+							}
+						}
+						ok = any && all
+					}
+				}
 				c.check(ok, fnName(g), "a continuation that waited for references sends only for a live subscription", p.InstrPos(c2), "under state != disposed, tested in the continuation",
 					"after the wait for the referenced resources the event is sent (resources handed out) without testing that the subscription is still alive: a resource the client has unsubscribed, or a connection that is gone, is sent an event and its references are counted as sent")
 			}
